@@ -17,6 +17,7 @@ CONSTANTS
   Wiring = "split"
   TTLTicks = 3
   MaxTicks = 4
+  Faults = {}
   Emit = FALSE
 INIT Init
 NEXT Next
